@@ -21,6 +21,7 @@ ASSUMPTIONS = ["the floating-point DCT/IDCT is exempt and not exercised; instruc
 
 def classify(op, R):
     p = op.split(" ")
+    if p[0] == "s5n": return "s5n:%s:w%d:d%s" % ("".join(p[7:13]), int(p[1]) % 16, p[5])
     if p[0] == "s5e": return "s5e:ss%s:k%s:m%s" % (p[1], p[5], p[6])
     if p[0] == "s5c": return "s5c:w%d:pf%s:ss%s:f%s:off%d" % (int(p[1]) % 32, p[3], p[4], p[6], int(p[7]) % 4)
     if p[0] == "s5d": return "s5d:ss%s:pf%s:f%s:sf%s" % (p[1], p[6], p[7], p[8])
@@ -44,6 +45,12 @@ def gen_ops(rng, tier):
     for i in range(2000 if big else 300):
         ops.append("s5y %d %d %d %d %d %d" % (rng.choice([rng.randint(1, 70), 16, 31, 32, 33, 65]), rng.randint(1, 20), rng.choice([0, 1, 2, 4, 5, 6]), rng.randrange(1 << 30),
                                              rng.randrange(5), rng.choice([1, 2, 4, 8, 16, 32])))
+    # sampling factors beyond the TurboJPEG levels (libjpeg API): row groups of 2..4 rows through the h2v1 / h2v2 / generic downsamplers
+    for i in range(1500 if big else 260):
+        f = rng.choice([(2, 2, 1, 2, 1, 2), (2, 2, 2, 1, 2, 1), (2, 2, 1, 2, 1, 2), (4, 2, 2, 2, 1, 1), (2, 4, 1, 2, 1, 4), (4, 1, 2, 1, 1, 1), (2, 2, 1, 1, 2, 1), (3, 2, 1, 2, 1, 1), (2, 3, 2, 1, 1, 3),
+                        (1, 2, 1, 1, 1, 2), (2, 1, 1, 1, 2, 1), (4, 4, 2, 2, 1, 1), (2, 2, 1, 2, 2, 2)])
+        ops.append("s5n %d %d %d %d %d %d %s" % (rng.choice([rng.randint(1, 70), 17, 31, 33, 47, 48, 16, 32]), rng.randint(1, 40), rng.randrange(1 << 30), rng.randrange(5), rng.randrange(2),
+                                                 rng.choice([0, 0, 0, 30]), " ".join(map(str, f))))
     # entropy coding alone: SIMD Huffman / progressive-prepare routines against the C ones on formula coefficients, every scan script
     for i in range(2500 if big else 400):
         ss = rng.choice([0, 1, 2, 3, 3, 4])
